@@ -98,8 +98,9 @@ def check_solve_routines(ctx: Ctx) -> None:
                 rhs_node = s
         comb_sign = None
         for s in stmts_of(f):
-            if isinstance(s, ast.Assign) and isinstance(s.targets[0], ast.Subscript) and isinstance(s.value, ast.BinOp) and isinstance(s.value.op, (ast.Add, ast.Sub)) and any("dfun" in n for n in names_in(s.value)):
-                comb_sign = 1 if isinstance(s.value.op, ast.Add) else -1
+            v_ = s.value.value if isinstance(s, ast.Assign) and isinstance(s.value, ast.DictComp) else (s.value if isinstance(s, ast.Assign) and isinstance(s.targets[0], ast.Subscript) else None)
+            if v_ is not None and isinstance(v_, ast.BinOp) and isinstance(v_.op, (ast.Add, ast.Sub)) and any("dfun" in n for n in names_in(v_)):
+                comb_sign = 1 if isinstance(v_.op, ast.Add) else -1
                 comb_node = s
         ctx.need(rhs_sign is not None and comb_sign is not None, f"{m}: right-hand side / combination statements not recognised")
         signs[m] = (rhs_sign, comb_sign)
